@@ -187,10 +187,13 @@ Stylesheet::~Stylesheet()
         DeleteFunctor<ElemDecimalFormat>(m_elemDecimalFormats.getMemoryManager()));
 
 
-    for_each(
-        m_extensionNamespaces.begin(),
-        m_extensionNamespaces.end(),
-        makeMapValueDeleteFunctor(m_extensionNamespaces));
+    if (m_extensionNamespaces.empty() == false)
+    {
+        for_each(
+            m_extensionNamespaces.begin(),
+            m_extensionNamespaces.end(),
+            makeMapValueDeleteFunctor(m_extensionNamespaces));
+    }
 
 }
 
